@@ -55,11 +55,12 @@ Definition exHint : netlist :=
     mk_node (NComb (KLogic L_NOT 1)) [Some (0, 0)];
     mk_node (NPinOut 1) [Some (1, 0)] ].
 Definition ex_sched : schedule := mk_sched [[EvReset true]; [EvEdge; EvReset false]] [EvEdge].
-Definition ex_ps (a b : tbit) (r : bool) : pstate := mk_pstate [mk_rstate [a] r] [mk_rstate [b] r] true.
+Definition ex_ps (a b : tbit) (r c : bool) : pstate := mk_pstate [mk_rstate [a] r] [mk_rstate [b] r] c.
 Definition ex_layers : list (list pstate) :=
-  [ [ex_ps B1 B0 true];
-    [ex_ps B1 B0 false];
-    [ex_ps B1 B0 false; ex_ps B0 B1 false; ex_ps BX BX false] ].
+  [ [ex_ps B1 B0 true true];
+    [ex_ps B1 B0 false true; ex_ps B1 B0 false false];
+    [ex_ps B1 B0 false true; ex_ps B1 B0 false false; ex_ps B0 B1 false true; ex_ps B0 B1 false false;
+     ex_ps BX BX false false] ].
 Example ex_strict_accepted : check_cert MStrict exRef exHint ex_sched [1] ex_layers = true.
 Proof. vm_compute. reflexivity. Qed.
 
@@ -172,11 +173,7 @@ Theorem delay_always_enabled : forall (V : Type) (xv : V) (rs : list V) (e : str
   (forall t, e t = B1) ->
   forall t, (t < length rs -> delay xv rs e d t = nth t rs xv) /\
             (length rs <= t -> delay xv rs e d t = d (t - length rs)).
-Proof.
-  intros V xv rs e d He t. split.
-  - exact (delay_always_enabled_fill_proof xv rs e d He t).
-  - exact (delay_always_enabled_proof xv rs e d He t).
-Qed.
+Proof. exact @delay_always_enabled_both_proof. Qed.
 Print Assumptions delay_always_enabled.
 
 (* one input with a register less: the operation combines values of different cycles *)
